@@ -77,14 +77,23 @@ class PM:
 
 
 class Mis:
-    def __init__(self, tag=''):
+    """a mission with every public attribute of AEIC.missions.Mission; `like` = a mission between the same airports
+    with the same aircraft type (same codes, hence same positions) but its own load factor"""
+
+    def __init__(self, tag='', like=None):
         from AEIC.types import Position
-        self.origin_position = Position(sym(f'{tag}o_lon', -180.0, 180.0), sym(f'{tag}o_lat', -90.0, 90.0), sym(f'{tag}o_alt', *_rg((0.0, 6000.0), (0.0, 500.0))))
-        self.destination_position = Position(sym(f'{tag}d_lon', -180.0, 180.0), sym(f'{tag}d_lat', -90.0, 90.0), sym(f'{tag}d_alt', *_rg((0.0, 6000.0), (0.0, 500.0))))
+        if like is None:
+            self.origin, self.destination, self.aircraft_type = f'{tag}ORG', f'{tag}DST', f'{tag}TYPE'
+            self.origin_position = Position(sym(f'{tag}o_lon', -180.0, 180.0), sym(f'{tag}o_lat', -90.0, 90.0), sym(f'{tag}o_alt', *_rg((0.0, 6000.0), (0.0, 500.0))))
+            self.destination_position = Position(sym(f'{tag}d_lon', -180.0, 180.0), sym(f'{tag}d_lat', -90.0, 90.0), sym(f'{tag}d_alt', *_rg((0.0, 6000.0), (0.0, 500.0))))
+        else:
+            self.origin, self.destination, self.aircraft_type = like.origin, like.destination, like.aircraft_type
+            self.origin_position, self.destination_position = like.origin_position, like.destination_position
         self.load_factor = sym(f'{tag}load_factor', 0.0, 1.0)
         self.label = 'sym'
         self.flight_id = None
         self.departure = None
+        self.arrival = None
 
 
 class StubTrack:
@@ -551,14 +560,17 @@ class ReplayablePM(PM):
         return r
 
 
-def two_flights_path(npts, caps, first_may_fail=True, fail_only_at=None, regime=None):
+def two_flights_path(npts, caps, first_may_fail=True, fail_only_at=None, regime=None, same_route=False):
     def fn(ex):
         ex.notes['regime'] = regime
         orc = Oracle()
         out = dict(npts=npts)
         with patches(not ex.concrete, caps, orc, 'stub'):
             pm_a, mis_a = ReplayablePM('a_'), Mis('a_')
-            pm_b, mis_b = ReplayablePM('b_'), Mis('b_')
+            # the second mission is any other mission, or one between the same airports with the same aircraft type
+            # (as in a schedule that repeats city pairs) that differs in load factor and performance-model answers
+            out['same_route'] = same_route
+            pm_b, mis_b = ReplayablePM('b_'), Mis('b_', like=mis_a if same_route else None)
             pm_a.may_fail, pm_b.may_fail = first_may_fail, False
             pm_a.fail_only_at = set(fail_only_at) if fail_only_at is not None else None
             for pm_, mis_ in ((pm_a, mis_a), (pm_b, mis_b)):
@@ -621,7 +633,7 @@ def run_two_flights(job):
     npts, caps = tuple(job['npts']), tuple(job['caps'])
     ex = sx.Explorer(purify=True, deadline=time.time() + job.get('deadline_s', 600))
     out = dict(job=job, obligations={}, violations=[], samples=[], distinct=set(), unknown=[], outcomes={})
-    fn = two_flights_path(npts, caps, job.get('first_may_fail', True), job.get('fail_only_at'), job.get('regime'))
+    fn = two_flights_path(npts, caps, job.get('first_may_fail', True), job.get('fail_only_at'), job.get('regime'), job.get('same_route', False))
     for p in ex.explore(fn):
         if p.exc is not None:
             out['violations'].append(dict(obligation='harness', detail=f'{p.exc!r} {(p.tb or "")[-600:]}', values={}, tags={}))
@@ -673,7 +685,7 @@ def run_two_flights(job):
 
 
 def replay_two_flights(job, v):
-    fn = two_flights_path(tuple(job['npts']), tuple(job['caps']), job.get('first_may_fail', True), job.get('fail_only_at'), job.get('regime'))
+    fn = two_flights_path(tuple(job['npts']), tuple(job['caps']), job.get('first_may_fail', True), job.get('fail_only_at'), job.get('regime'), job.get('same_route', False))
     values = dict(v['values'])
     import math
     for tag, trk in (('a_', 'trackf1_total_distance'), ('b_', 'trackf2_total_distance')):
